@@ -10,25 +10,30 @@ use std::collections::{HashMap, HashSet};
 verus!{
 global size_of usize == 8;
 //@include common/std_extra.rs
+//@include common/hashmap_get_mut.rs
 // =====================================================================
 // prelude: stand-ins (D3/D4) for everything set_node_property touches besides the version chains
 // =====================================================================
-#[verifier::external_body] pub struct Label { s: String }
+#[verifier::external_body] #[derive(PartialEq, Eq, Hash)] pub struct Label { s: String }
 impl Label { #[verifier::external_body] pub fn as_str(&self) -> &str { unimplemented!() } }
 impl Clone for Label { #[verifier::external_body] fn clone(&self) -> Self { unimplemented!() } }
 #[verifier::external_body] #[derive(Debug)] pub struct PropertyValue { x: u8 }
 impl PropertyValue { #[verifier::external_body] pub fn is_null(&self) -> bool { unimplemented!() } }
 impl Clone for PropertyValue { #[verifier::external_body] fn clone(&self) -> Self { unimplemented!() } }
 #[verifier::external_body] pub struct LabelSet { x: u8 }
-impl LabelSet { #[verifier::external_body] pub fn iter(&self) -> LabelIter { unimplemented!() } }
+impl LabelSet { #[verifier::external_body] pub fn iter(&self) -> LabelIter { unimplemented!() }
+  /// stands for `&set` as an iterable: the labels, each once (D4)
+  #[verifier::external_body] pub fn as_vec(&self) -> &Vec<Label> { unimplemented!() } }
 #[verifier::external_body] pub struct LabelIter { x: u8 }
 impl LabelIter { #[verifier::external_body] pub fn cloned(self) -> LabelIter { unimplemented!() }
   #[verifier::external_body] pub fn collect(self) -> Vec<Label> { unimplemented!() } }
-pub enum IndexEvent { PropertySet { tenant_id: String, id: NodeId, labels: Vec<Label>, key: String, old_value: Option<PropertyValue>, new_value: PropertyValue } }
+pub enum IndexEvent { NodeDeleted { tenant_id: String, id: NodeId, labels: Vec<Label>, properties: PropertyMap }, PropertySet { tenant_id: String, id: NodeId, labels: Vec<Label>, key: String, old_value: Option<PropertyValue>, new_value: PropertyValue } }
 #[verifier::external_body] #[verifier::reject_recursive_types(T)] pub struct UnboundedSender<T> { x: u8, t: core::marker::PhantomData<T> }
 pub mod graph { pub mod event { pub use super::super::IndexEvent; } }
 impl<T> UnboundedSender<T> { #[verifier::external_body] pub fn send(&self, e: T) -> Result<(), ()> { unimplemented!() } }
-pub struct Node { pub version: u64, pub updated_at: i64, pub labels: LabelSet, pub data: NodeData }
+pub struct Node { pub version: u64, pub updated_at: i64, pub labels: LabelSet, pub properties: PropertyMap, pub data: NodeData }
+#[verifier::external_body] pub struct PropertyMap { m: u8 }
+impl Clone for PropertyMap { #[verifier::external_body] fn clone(&self) -> (r: Self) ensures r == *self { unimplemented!() } }
 #[verifier::external_body] pub struct NodeData { d: u8 }
 impl Clone for Node { #[verifier::external_body] fn clone(&self) -> (r: Self) ensures r == *self { unimplemented!() } }
 impl Node {
@@ -44,7 +49,29 @@ impl IndexManager {
     #[verifier::external_body] pub fn constraint_insert(&self, l: &Label, k: &str, v: PropertyValue, n: NodeId) { unimplemented!() }
 }
 #[verifier::external_body] pub struct ColumnStore { x: u8 }
+#[verifier::external_body] pub struct GraphCatalog { c: u8 }
+impl GraphCatalog { #[verifier::external_body] pub fn on_label_removed(&mut self, l: &Label) { unimplemented!() } }
+#[verifier::external_body] pub struct TenantManager { t: u8 }
+pub type Entry = (NodeId, EdgeId);
+#[verifier::external_body] pub struct FrozenAdjacencyStore { f: u8 }
+impl FrozenAdjacencyStore { #[verifier::external_body] pub fn neighbors_collected(&self, node_idx: usize) -> Vec<Entry> { unimplemented!() } }
+#[verifier::external_body]
+pub proof fn axiom_key_models()
+    ensures vstd::std_specs::hash::obeys_key_model::<Label>(), vstd::std_specs::hash::obeys_key_model::<NodeId>()
+{}
+/// `ids.extend(std::mem::take(buffer).into_iter().map(|(_, eid)| eid));` (A-STD; wrapper body is the original statement):
+/// the buffer is emptied, its edge ids are appended
+#[verifier::external_body]
+pub fn extend_with_taken_ids(ids: &mut Vec<EdgeId>, buffer: &mut Vec<Entry>)
+    ensures final(buffer)@.len() == 0
+{ ids.extend(std::mem::take(buffer).into_iter().map(|(_, eid)| eid)); }
+/// `a.iter().chain(b.iter())` materialised (A-STD): a's elements then b's
+#[verifier::external_body]
+pub fn chained_ids(a: &Vec<EdgeId>, b: &Vec<EdgeId>) -> (r: Vec<EdgeId>)
+    ensures r@ == a@ + b@
+{ a.iter().chain(b.iter()).copied().collect() }
 impl ColumnStore {
+    #[verifier::external_body] pub fn clear_row(&mut self, idx: usize) { unimplemented!() }
     #[verifier::external_body] pub fn set_property(&mut self, idx: usize, key: &str, value: PropertyValue) { unimplemented!() }
     #[verifier::external_body] pub fn remove_property(&mut self, idx: usize, key: &str) { unimplemented!() }
 }
@@ -71,7 +98,7 @@ impl vstd::std_specs::fmt::DebugSpecImpl for PropertyValue { open spec fn fmt_re
 //@item type TxnId
 //@enum GraphError
 //@item type GraphResult
-//@struct GraphStore keep=nodes,current_version,property_index,node_columns,index_sender erase
+//@struct GraphStore keep=nodes,current_version,property_index,node_columns,index_sender,free_node_ids,label_index,catalog,frozen_outgoing,frozen_incoming,outgoing,incoming erase
 
 // ---- versioned reads (as in unit store_mvcc) ----
 pub open spec fn chain_sorted(c: Seq<Node>) -> bool { forall|i: int, j: int| 0 <= i <= j < c.len() ==> c[i].version <= c[j].version }
@@ -106,13 +133,58 @@ pub proof fn lemma_read_ignores_newer_last(c: Seq<Node>, n: Node, v: u64)
 
 impl GraphStore {
     #[verifier::external_body] pub fn invalidate_statistics_cache(&self) { unimplemented!() }
-    #[verifier::external_body] pub fn get_node(&self, id: NodeId) -> Option<&Node> { unimplemented!() }
+    /// get_node (unit store_mvcc): the newest version stamped at or below the current version
+    #[verifier::external_body]
+    pub fn get_node(&self, id: NodeId) -> (r: Option<&Node>)
+        ensures r matches Some(n) ==> (id.0 as int) < self.nodes@.len() && read(self.nodes@[id.0 as int]@, self.current_version) == Some(*n)
+    { unimplemented!() }
+    #[verifier::external_body] pub fn handle_index_event(&self, event: IndexEvent, tm: Option<std::sync::Arc<TenantManager>>) { unimplemented!() }
+    /// delete_edge (unit store_adj): does not touch the version chains (D4, assumed frame)
+    #[verifier::external_body]
+    pub fn delete_edge(&mut self, id: EdgeId) -> (r: GraphResult<u8>)
+        ensures final(self).nodes@ == old(self).nodes@ && final(self).current_version == old(self).current_version
+    { unimplemented!() }
     #[verifier::external_body] pub fn update_hierarchies_for_property(&self, id: NodeId, k: &str, v: &PropertyValue) { unimplemented!() }
     #[verifier::external_body] fn apply_property_set(&self, id: NodeId, labels: &LabelSet, k: &str, old: Option<&PropertyValue>, v: &PropertyValue) { unimplemented!() }
     pub open spec fn stamped(&self) -> bool {
         (forall|id: int| 0 <= id < self.nodes@.len() ==> chain_sorted(#[trigger] self.nodes@[id]@))
         && forall|id: int, k: int| 0 <= id < self.nodes@.len() && 0 <= k < self.nodes@[id]@.len() ==> (#[trigger] self.nodes@[id]@[k]).version <= self.current_version
     }
+
+//@fn GraphStore::delete_node ret=r
+//@requires
+        old(self).stamped(),
+        // every node slot has its adjacency buffers (create_node* resize outgoing/incoming together with nodes; A-PROJ)
+        old(self).outgoing@.len() >= old(self).nodes@.len() && old(self).incoming@.len() >= old(self).nodes@.len(),
+//@ensures
+        final(self).nodes@.len() == old(self).nodes@.len() && final(self).current_version == old(self).current_version,   //#frame
+        forall|k: int| 0 <= k < old(self).nodes@.len() && k != id.0 as int ==> #[trigger] final(self).nodes@[k]@ == old(self).nodes@[k]@,   //#other_nodes_untouched
+        r is Err ==> final(self).nodes@ == old(self).nodes@,                                          //#refused_changes_no_version
+        r is Ok ==> read(final(self).nodes@[id.0 as int]@, old(self).current_version) is None,        //#deleted_node_is_not_readable
+        r is Ok ==> forall|v: u64| v < old(self).current_version ==>
+            #[trigger] read(final(self).nodes@[id.0 as int]@, v) == read(old(self).nodes@[id.0 as int]@, v),   //#reads_below_current_version_unchanged
+        r is Ok ==> (id.0 as int) < old(self).nodes@.len() && old(self).nodes@[id.0 as int]@.len() > 0
+            && final(self).nodes@[id.0 as int]@ == old(self).nodes@[id.0 as int]@.drop_last(),             //#pops_exactly_the_newest_version
+//@loop 1 iter=it1
+            invariant self.nodes@ == old(self).nodes@, self.current_version == old(self).current_version,
+                self.outgoing@ == old(self).outgoing@ && self.incoming@ == old(self).incoming@,
+                (id.0 as int) < self.nodes@.len() && self.nodes@[id.0 as int]@.len() > 0, idx == id.0 as int,
+//@loop 2 iter=it2
+            invariant self.nodes@ == n2, self.current_version == old(self).current_version,
+//@before "let mut outgoing_edges: Vec<EdgeId>"
+        let ghost n2 = self.nodes@;
+//@before "self.free_node_ids.push(id.as_u64());"
+        proof {
+            lemma_read_idx(self.nodes@[id.0 as int]@, self.current_version);
+        }
+//@replace "in &latest_node.labels {" => "in latest_node.labels.as_vec().iter() {" :: HashSet<Label> iteration through the stand-in (D4)
+//@replace "crate::graph::event::IndexEvent::NodeDeleted" => "IndexEvent::NodeDeleted" :: path only
+//@replace "outgoing_edges.extend(<NL>            std::mem::take(&mut self.outgoing[idx]).into_iter().map(|(_, eid)| eid)<NL>        );" => "extend_with_taken_ids(&mut outgoing_edges, &mut self.outgoing[idx]);" :: Vec::extend over a mapped IntoIter of a taken buffer: wrapper body is the original statement
+//@replace "incoming_edges.extend(<NL>            std::mem::take(&mut self.incoming[idx]).into_iter().map(|(_, eid)| eid)<NL>        );" => "extend_with_taken_ids(&mut incoming_edges, &mut self.incoming[idx]);" :: as above
+//@replace "for edge_id in outgoing_edges.iter().chain(incoming_edges.iter()) {" => "let all_edges__ = chained_ids(&outgoing_edges, &incoming_edges); for edge_id in all_edges__.iter() {" :: the Chain adapter is outside Verus: the same sequence, materialised
+//@atstart
+        proof { axiom_key_models(); }
+//@end
 
 //@fn GraphStore::set_node_property ret=r
 //@requires
@@ -124,7 +196,8 @@ impl GraphStore {
         final(self).stamped(),                                                                        //#stamps_stay_sorted_and_current
         r is Err ==> final(self).nodes@ == old(self).nodes@,                                          //#refused_changes_no_version
 //@loop 1 iter=it1
-            invariant self.nodes@ == old(self).nodes@, self.current_version == old(self).current_version, old(self).stamped(),
+            invariant self.nodes@ == old(self).nodes@, self.current_version == old(self).current_version,
+                self.outgoing@ == old(self).outgoing@ && self.incoming@ == old(self).incoming@, old(self).stamped(),
 //@loop 2 iter=it2
             invariant self.nodes@ == n1, self.current_version == old(self).current_version,
 //@before "for label in &constrained_labels {" 2
